@@ -260,6 +260,53 @@ def ret_defs(f):
 
 
 # ---------------------------------------------------------------------------------------------- rules on main
+READS = ["fs::read", "fs::read_to_string"]
+
+
+def result_tests(f, call):
+    """Switches testing the Result produced by `call` (directly, through `?`, with_context, map_err ...):
+    list of (switch_bb, failure_target, success_target)."""
+    out = []
+    for b, t in f.switches():
+        o = f.switch_origin(b)
+        if o.get("kind") != "discr":
+            continue
+        of = o.get("of", {})
+        if of.get("kind") != "call":
+            continue
+        via = [of["call"]] + ([x for x, _ in chain(f, of["call"].args[0])[0]] if of["call"].args else [])
+        bbs = [x.bb for x in via]
+        if call.bb not in bbs:
+            continue
+        if not all(x.matches(RESULT_PASS) for x in via[:bbs.index(call.bb)]):
+            continue        # a Result derived from the value (from_utf8 of the bytes read ...), not the call's own Result
+        vars_ = o["vars"]
+        tg = f.switch_targets(b)
+        named = {vars_.get(v): tb for v, tb in tg.items() if v != "else"}
+        for v, n in vars_.items():
+            if v not in tg:
+                named.setdefault(n, tg["else"])
+        brk = [named[n] for n in ("Break", "Err") if n in named]
+        cont = [named[n] for n in ("Continue", "Ok") if n in named]
+        if brk and cont:
+            out.append((b, brk[0], cont[0]))
+    return out
+
+
+class Ctx:
+    """Where the read + comparison live: the function holding the check switch itself, or a helper of the CLI crate
+    called from the check = true region.  `succ` are the blocks that mean `this file is fine, go on`: the loop header
+    in the holder, the `Ok` result sites in a helper."""
+
+    def __init__(self, f, region, succ, is_dst, same_contents, view_contents):
+        self.f, self.region, self.succ = f, region, succ
+        self.is_dst, self.same_contents, self.view_contents = is_dst, same_contents, view_contents
+        self.rdefs = ret_defs(f)
+        self.rets = f.returns()
+        self.reads = [c for c in f.calls(READS) if c.bb in region]
+        self.cmps = []
+
+
 def check_region_rules(rep, B):
     c = B.c
     main = c.fn("main")
@@ -302,10 +349,12 @@ def check_region_rules(rep, B):
                ", ".join(short(f.npath) for f, _ in muts), muts[0][0].loc(muts[0][1]) if muts else "")
     rep.guard("R33.1", "no-write-under-check", r1)
 
+    ctxs = []
     for f, sw, neg in holders:
-        rep.guard("R33.2", f"check region of {short(f.npath)}", lambda f=f, sw=sw, neg=neg: region_rules(rep, B, f, sw, neg))
+        rep.guard("R33.2", f"check region of {short(f.npath)}",
+                  lambda f=f, sw=sw, neg=neg: ctxs.extend(region_rules(rep, B, f, sw, neg) or []))
 
-    rep.guard("R33.4", "crlf message", lambda: crlf_rule(rep, B, holders))
+    rep.guard("R33.4", "crlf message", lambda: crlf_rule(rep, B, ctxs))
 
 
 def loop_headers(f, sw):
@@ -313,6 +362,7 @@ def loop_headers(f, sw):
 
 
 def region_rules(rep, B, f, sw, neg):
+    """Rules on the function holding the check switch; returns the contexts in which read + comparison were found."""
     rep.saw(f)
     fn = short(f.npath)
     false_t, true_t = bool_targets(f, sw, neg)
@@ -337,51 +387,89 @@ def region_rules(rep, B, f, sw, neg):
     rep.ob("R33.1", f"{fn}: no file-mutating call inside the check = true region",
            not [c for c in f.calls() if c.bb in region and write_api(c)], "", f.loc(sw))
 
-    # what would be written: the guarded write site's operands
+    # what would be written: the operands of the guarded write site (std::fs::write, or a CLI-crate helper reaching it)
     wsites = [(b, w, c) for b, w, c in B.writes(f) if c is not None and b in f.reachable(false_t, avoid=H)]
     rep.floor("R33.5", f"write call on the check = false side of {fn}", len(wsites), 1)
+    wargs = [a for _, _, c in wsites for a in c.args]
+
+    def is_dst(op):
+        return any(derives_from(f, op, a) or derives_from(f, a, op) for a in wargs)
+
+    def same_contents(op):
+        return any(derives_from(f, op, a) and derives_from(f, a, op) for a in wargs)
+
+    def view_contents(op):
+        return any(derives_from(f, op, a) for a in wargs)
+
+    ctxs = []
+    if [c for c in f.calls(READS) if c.bb in region]:
+        ctxs.append(Ctx(f, region, H, is_dst, same_contents, view_contents))
+    else:
+        # the comparison lives in a helper of the CLI crate called from the check region
+        for c in f.calls():
+            if c.bb not in region:
+                continue
+            for g in [g for n in c.names() for g in B.by_name.get(mir.norm(n), [])]:
+                if not g.calls(READS):
+                    continue
+                gn = short(g.npath)
+                rep.saw(g)
+                tests = result_tests(f, c)
+                rep.ob("R33.2", f"{fn}: the result of {gn} is tested for failure (`?` or a match)", len(tests) >= 1,
+                       f"{len(tests)} switches on the Result of the call", f.loc(c.bb))
+                for b, brk, cont in tests:
+                    rb = f.reachable(brk)
+                    kinds = {k for bb, k in rdefs if bb in rb}
+                    rep.ob("R33.2", f"{fn}: a failure of {gn} returns the error (never continues, never succeeds)",
+                           not (set(H) & rb) and bool(kinds) and kinds <= {"residual", "Err"} and bool(set(rets) & rb),
+                           f"return values on the failure edge: {sorted(kinds)}; loop header reachable: {bool(set(H) & rb)}",
+                           f.loc(b))
+
+                def arg_index(op, g=g):
+                    calls, fin = chain(g, op)
+                    return (calls, fin[1]) if fin[0] == "arg" and not fin[2] else (calls, None)
+
+                def g_is_dst(op, c=c):
+                    calls, i = arg_index(op)
+                    return i is not None and i - 1 < len(c.args) and is_dst(c.args[i - 1])
+
+                def g_same(op, c=c):
+                    calls, i = arg_index(op)
+                    return i is not None and not calls and i - 1 < len(c.args) and same_contents(c.args[i - 1])
+
+                def g_view(op, c=c):
+                    calls, i = arg_index(op)
+                    return i is not None and i - 1 < len(c.args) and same_contents(c.args[i - 1])
+
+                ctxs.append(Ctx(g, set(g.live), [b for b, k in ret_defs(g) if k == "Ok"], g_is_dst, g_same, g_view))
+    rep.floor("R33.3", f"read + comparison located for the check region of {fn}", len(ctxs), 1)
+    for ctx in ctxs:
+        compare_rules(rep, ctx)
+    return ctxs
+
+
+def compare_rules(rep, ctx):
+    f = ctx.f
+    fn = short(f.npath)
+    region, succ, rdefs, rets, reads = ctx.region, ctx.succ, ctx.rdefs, ctx.rets, ctx.reads
+    what_next = "continues with the next file" if f.path.endswith("::main") or any(f.in_cycle(b) for b in succ) \
+        else "reports success"
 
     # ---- R33.3 read error is propagated
-    reads = [c for c in f.calls(["fs::read", "fs::read_to_string"]) if c.bb in region]
     rep.floor("R33.3", f"file read in the check region of {fn}", len(reads), 1)
     for r in reads:
         # R33.5 the file read is the file that would be written
-        same = [w for b, w, c in wsites if any(derives_from(f, r.args[0], a) or derives_from(f, a, r.args[0]) for a in c.args)]
-        rep.ob("R33.5", f"{fn}: the path read in check mode is the path that would be written", bool(same),
+        rep.ob("R33.5", f"{fn}: the path read in check mode is the path that would be written", ctx.is_dst(r.args[0]),
                "fs::read and the write call do not take the same destination value", f.loc(r.bb))
-        prop = []
-        for b, t in f.switches():
-            o = f.switch_origin(b)
-            if o.get("kind") != "discr":
-                continue
-            of = o.get("of", {})
-            if of.get("kind") != "call":
-                continue
-            via = [of["call"]] + ([x for x, _ in chain(f, of["call"].args[0])[0]] if of["call"].args else [])
-            if not any(x.bb == r.bb for x in via):
-                continue
-            upto = via[:[x.bb for x in via].index(r.bb)]
-            if not all(x.matches(RESULT_PASS) for x in upto):
-                continue        # a Result derived from the bytes read (from_utf8 ...), not the read's own Result
-            vars_ = o["vars"]
-            tg = f.switch_targets(b)
-            named = {vars_.get(v): tb for v, tb in tg.items() if v != "else"}
-            rest = [n for v, n in vars_.items() if v not in tg]
-            for n in rest:
-                named.setdefault(n, tg["else"])
-            brk = [named[n] for n in ("Break", "Err") if n in named]
-            cont = [named[n] for n in ("Continue", "Ok") if n in named]
-            if brk and cont:
-                prop.append((b, brk[0], cont[0]))
+        prop = result_tests(f, r)
         rep.ob("R33.3", f"{fn}: the result of the read is tested for failure (`?` or a match)", len(prop) >= 1,
-               f"{len(prop)} switches on the Result of the read",
-               f.loc(r.bb))
+               f"{len(prop)} switches on the Result of the read", f.loc(r.bb))
         for b, brk, cont in prop:
             rb = f.reachable(brk)
             kinds = {k for bb, k in rdefs if bb in rb}
             rep.ob("R33.3", f"{fn}: a failed read returns the error (never continues, never succeeds)",
-                   not (set(H) & rb) and kinds and kinds <= {"residual", "Err"} and bool(set(rets) & rb),
-                   f"return values on the failure edge: {sorted(kinds)}; loop header reachable: {bool(set(H) & rb)}", f.loc(b))
+                   not (set(succ) & rb) and bool(kinds) and kinds <= {"residual", "Err"} and bool(set(rets) & rb),
+                   f"return values on the failure edge: {sorted(kinds)}; success exit reachable: {bool(set(succ) & rb)}", f.loc(b))
 
     # ---- R33.2 (b) the comparison
     cmps = []
@@ -403,52 +491,52 @@ def region_rules(rep, B, f, sw, neg):
         differ_t, equal_t = (tt, ft) if is_ne else (ft, tt)
         other = cc.args[1] if side[0] else cc.args[0]
         cmps.append((b, cc, differ_t, equal_t, other))
+    ctx.cmps = cmps
     rep.floor("R33.2", f"comparison of the bytes read with the generated bytes in {fn}", len(cmps), 1)
     for b, cc, differ_t, equal_t, other in cmps:
-        same = [w for bb, w, c in wsites if any(derives_from(f, other, a) and derives_from(f, a, other) for a in c.args)]
-        rep.ob("R33.5", f"{fn}: the bytes compared in check mode are the bytes that would be written", bool(same),
-               "the right-hand side of the comparison is not the contents operand of the write call", f.loc(b))
+        rep.ob("R33.5", f"{fn}: the bytes compared in check mode are the bytes that would be written",
+               ctx.same_contents(other),
+               "the other side of the comparison is not the contents operand of the write call", f.loc(b))
         # read success dominates the comparison
         rep.ob("R33.3", f"{fn}: the comparison happens only after a successful read",
-               all(any(f.dominates(r.bb, b) for r in reads) for _ in [0]), "", f.loc(b))
+               any(f.dominates(r.bb, b) for r in reads), "", f.loc(b))
         rd = f.reachable(differ_t)
         kinds = {k for bb, k in rdefs if bb in rd}
-        rep.ob("R33.2", f"{fn}: bytes differ => never continues to the next file", not (set(H) & rd),
-               "the loop header is reachable from the `differs` edge", f.loc(b))
+        rep.ob("R33.2", f"{fn}: bytes differ => never {what_next}", not (set(succ) & rd),
+               "the loop header / success result is reachable from the `differs` edge", f.loc(b))
         rep.ob("R33.2", f"{fn}: bytes differ => every return is an error",
                bool(set(rets) & rd) and bool(kinds) and kinds <= {"Err", "residual"},
                f"return values reachable from the `differs` edge: {sorted(kinds)}", f.loc(b))
-        re_ = f.reachable(equal_t, avoid=H)
-        kinds_e = {k for bb, k in rdefs if bb in re_}
-        rep.ob("R33.2", f"{fn}: bytes equal => continues with the next file",
-               bool(set(H) & f.reachable(equal_t)) and f.all_paths_pass(equal_t, rets, H) and not kinds_e and
+        re_ = f.reachable(equal_t, avoid=succ)
+        kinds_e = {k for bb, k in rdefs if bb in re_ and bb not in succ}
+        rep.ob("R33.2", f"{fn}: bytes equal => {what_next}",
+               bool(set(succ) & f.reachable(equal_t)) and f.all_paths_pass(equal_t, rets, succ) and not kinds_e and
                not [c for c in f.calls() if c.bb in re_ and c.target < 0],
-               f"from the `equal` edge a return / error is reachable without passing the loop header ({sorted(kinds_e)})",
-               f.loc(b))
-    return cmps
+               f"from the `equal` edge a return / error is reachable without passing the loop header / success result "
+               f"({sorted(kinds_e)})", f.loc(b))
 
 
-def crlf_rule(rep, B, holders):
+def crlf_rule(rep, B, ctxs):
     """R33.4: the line-ending message is built only under `a.lines().eq(b.lines())` of the two texts."""
     c = B.c
     pat = re.compile(r"line.?ending|CRLF", re.I)
     sites = []
     for fi in synq.all_fns(BIN_SRC):
         macs = [m for m in synq.macros(fi.body) if any(pat.search(s.get("v", "")) for s in synq.strings(m))]
-        # innermost macros only
-        macs = [m for m in macs if not any(o is not m and m["sp"][0] <= o["sp"][0] and o["sp"][2] <= m["sp"][2] and
-                                           (o["sp"][0], o["sp"][1], o["sp"][2], o["sp"][3]) != tuple(m["sp"]) and
-                                           (m["sp"][0], m["sp"][1]) <= (o["sp"][0], o["sp"][1]) and
-                                           (o["sp"][2], o["sp"][3]) <= (m["sp"][2], m["sp"][3]) for o in macs)]
+
+        def inside(o, m):
+            return o is not m and tuple(o["sp"]) != tuple(m["sp"]) and \
+                (m["sp"][0], m["sp"][1]) <= (o["sp"][0], o["sp"][1]) and (o["sp"][2], o["sp"][3]) <= (m["sp"][2], m["sp"][3])
         for m in macs:
-            sites.append((fi, m))
+            if not any(inside(o, m) for o in macs):      # innermost macro around the literal
+                sites.append((fi, m))
     rep.floor("R33.4", "line-ending message literal in the CLI source", len(sites), 1)
-    hold = {f.path: (f, sw, neg) for f, sw, neg in holders}
+    by_fn = {ctx.f.path: ctx for ctx in ctxs}
     n = 0
     for fi, m in sites:
         l0, c0, l1, c1 = m["sp"]
         for f in c.fns.values():
-            if f.file != BIN_SRC or "{closure" in f.path and False:
+            if f.file != BIN_SRC:
                 continue
             blocks = []
             for b in sorted(f.live):
@@ -459,41 +547,42 @@ def crlf_rule(rep, B, holders):
                     blocks.append(b)
             if not blocks:
                 continue
-            if f.path not in hold:
-                rep.ob("R33.4", f"line-ending message is built in the function holding the check switch", False,
+            n += len(blocks)
+            if f.path not in by_fn:
+                rep.ob("R33.4", "the line-ending message is built in the function that reads and compares the file", False,
                        f"built in {short(f.npath)}; its guard cannot be related to the comparison", f.loc(blocks[0]))
                 continue
-            g, sw, neg = hold[f.path]
-            reads = [cc for cc in f.calls(["fs::read", "fs::read_to_string"])]
-            wsites = [(b, w, cc) for b, w, cc in B.writes(f) if cc is not None]
+            ctx = by_fn[f.path]
             verdicts = []
             for b in blocks:
-                n += 1
                 good = False
                 why = "no dominating `Iterator::eq` true edge"
                 for gsw, vals, o in f.guard_edges(b):
                     o, n2 = strip_not(o)
                     if o.get("kind") != "call" or not o["call"].matches("Iterator::eq") or edge_polarity(vals, n2) is not True:
                         continue
-                    ec = o["call"]
                     sides = []
-                    for a in ec.args[:2]:
+                    for a in o["call"].args[:2]:
                         calls = [x for x, _ in chain(f, a)[0]]
                         is_lines = bool(calls) and calls[0].matches(STR_LINES)
-                        from_read = any(x.bb == r.bb for x in calls for r in reads)
-                        from_contents = any(derives_from(f, a, wa) for _, _, wc in wsites for wa in wc.args
-                                            if "[u8]" in "".join(wc.arg_types) or True) and not from_read
+                        from_read = any(x.bb == r.bb for x in calls for r in ctx.reads)
+                        from_contents = not from_read and ctx.view_contents(a)
                         sides.append((is_lines, from_read, from_contents))
                     if len(sides) == 2 and all(s[0] for s in sides) and \
                             ((sides[0][1] and sides[1][2]) or (sides[1][1] and sides[0][2])):
                         good = True
                     else:
-                        why = f"Iterator::eq operands are not lines() of the file read and of the generated contents: {sides}"
+                        why = "Iterator::eq operands are not lines() of the file read and of the generated contents: " \
+                              f"(is_lines, from_read, from_contents) = {sides}"
                 verdicts.append((good, why, b))
             badv = [v for v in verdicts if not v[0]]
             rep.ob("R33.4", f"{short(f.npath)}: the line-ending message is reached only through "
                             f"`prev.lines().eq(contents.lines())` = true", not badv,
                    badv[0][1] if badv else "", f.loc(badv[0][2] if badv else blocks[0]))
+            # the message sits on the `differs` side of the comparison
+            rep.ob("R33.4", f"{short(f.npath)}: the line-ending message is on the `bytes differ` side",
+                   bool(ctx.cmps) and all(any(b in f.reachable(d) and b not in f.reachable(e, avoid=ctx.succ)
+                                              for _, _, d, e, _ in ctx.cmps) for b in blocks), "", f.loc(blocks[0]))
     rep.floor("R33.4", "MIR sites building the line-ending message", n, 1)
 
 
